@@ -143,7 +143,7 @@ impl Property for C17 {
         "proptest histories (<=25 quick / <=45 thorough ops) over 4 addresses: add / remove operator (duplicates and absent addresses included) authorised by the owner, a former owner, a stranger or nobody; ownership transfer; execute(caller, target function, args) with the caller's own authorisation, the owner's instead, another operator's instead, or none, against a probe target offering echo1, echo3, sum, noargs, store and a failing function, plus wrong-arity and unknown-function calls, with arguments of eight value kinds. Oracle: set model (membership swept over the pool after every step); execute succeeds iff the caller authorised and is a member at that moment and the target call succeeds; then the probe's call log grows by exactly one entry with the same function and arguments and the returned value equals the probe's; otherwise the call fails with the ledger snapshot identical. non-trivial = history contains an execute by a former member, or a successfully forwarded call with >= 2 arguments; distinct by Debug hash"
     }
     fn cases(&self, tier: Tier) -> u64 {
-        tier.pick(3000, 40000)
+        tier.pick(4000, 60000)
     }
     fn strategy(&self, tier: Tier) -> BoxedStrategy<Case> {
         (any::<bool>(), proptest::collection::vec(op(), 1..=tier.pick(25usize, 45usize)))
